@@ -2761,6 +2761,38 @@ fn main() {
                             let want: Vec<String> = if f == 1 { vec![] } else { vec!["first".to_string(), "second".to_string()] };
                             format!("{{\"before\":{:?},\"after\":{:?},\"as_expected\":{}}}", before, after, before.is_empty() && after == want)
                         }
+                        // cancel_send_no_credit: the peer never grants credit; the client starts three sends under a 40 ms time-out
+                        //   (each send future is dropped while it waits for credit) and then a fourth one under 300 ms. No transfer
+                        //   may ever reach the peer: cancelling a send that holds no credit must not create credit.
+                        "cancel_send_no_credit" => {
+                            let peer = tokio::spawn(sp::run(peer_io, sp::PeerCfg { credit: None, ..Default::default() }, move |_f: &Frame, _log: &[String]| sp::Act::default()));
+                            let client = tokio::time::timeout(Duration::from_secs(8), async {
+                                let mut conn = fe2o3_amqp::Connection::builder().container_id("client").open_with_stream(client_io).await.map_err(|_| "open_failed")?;
+                                let mut session = fe2o3_amqp::Session::begin(&mut conn).await.map_err(|_| "begin_failed")?;
+                                let mut sender = fe2o3_amqp::Sender::attach(&mut session, "s-1", "q1").await.map_err(|_| "attach_failed")?;
+                                let mut completed = 0u32;
+                                for k in 0..4 {
+                                    let m = fe2o3_amqp::Sendable::builder().message(format!("m{}", k)).settled(true).build();
+                                    let ms = if k < 3 { 40 } else { 300 };
+                                    if let Ok(Ok(_)) = tokio::time::timeout(Duration::from_millis(ms), sender.send(m)).await {
+                                        completed += 1;
+                                    }
+                                }
+                                tokio::time::sleep(Duration::from_millis(200)).await;
+                                let _ = tokio::time::timeout(Duration::from_secs(1), sender.close()).await;
+                                let _ = tokio::time::timeout(Duration::from_secs(1), session.end()).await;
+                                let _ = tokio::time::timeout(Duration::from_secs(1), conn.close()).await;
+                                Ok::<_, &'static str>(completed)
+                            })
+                            .await
+                            .unwrap_or(Err("hang"));
+                            let log = tokio::time::timeout(Duration::from_secs(2), peer).await.ok().and_then(|r| r.ok()).unwrap_or_default();
+                            let n = log.iter().filter(|l| l.starts_with("transfer:")).count();
+                            match client {
+                                Ok(c) => format!("{{\"client\":\"ok\",\"sends_completed\":{},\"transfers_without_credit\":{},\"log\":{}}}", c, n, sp::json_list(&log)),
+                                Err(e) => format!("{{\"client\":\"{}\",\"sends_completed\":0,\"transfers_without_credit\":{},\"log\":{}}}", e, n, sp::json_list(&log)),
+                            }
+                        }
                         // link_split <pieces>: the peer's attach carries max-message-size 16; the client sends ONE message
                         //   whose payload is cut into <pieces> transfers by the link. All frames of the delivery must carry
                         //   the first frame's delivery-id or none, `more` on all but the last, and add up to the payload.
